@@ -345,11 +345,7 @@ theorem pick_resultOf (ty : Option Ty) (m : Method) (ans : Answer) (robj : List 
   | ok v =>
     simp only [resultOf, Except.ok.injEq] at h
     subst h
-    cases hv : m.void
-    · simp only [pick, hv, Bool.false_eq_true, if_false, List.singleton_append, List.drop_succ_cons, List.drop_zero,
-        firstThrow_nils, List.head?_cons, outcomeOf, ho, Bool.or_self]
-      cases v <;> cases ty <;> rfl
-    · simp [pick, hv, firstThrow_nils, outcomeOf, ho]
+    cases hv : m.void <;> simp [pick, hv, firstThrow_nils, outcomeOf, ho]
   | exc i v =>
     simp only [resultOf] at h
     split at h
@@ -358,16 +354,9 @@ theorem pick_resultOf (ty : Option Ty) (m : Method) (ans : Answer) (robj : List 
       subst h
       by_cases hn : v = .nil
       · subst hn
-        cases hv : m.void
-        · simp only [pick, hv, Bool.false_eq_true, if_false, List.singleton_append, List.drop_succ_cons, List.drop_zero,
-            set_nil_nils, firstThrow_nils, List.head?_cons, outcomeOf, ho, hi, if_true]
-          cases ty <;> rfl
-        · simp [pick, hv, set_nil_nils, firstThrow_nils, outcomeOf, ho, hi]
+        cases hv : m.void <;> simp [pick, hv, set_nil_nils, firstThrow_nils, outcomeOf, ho, hi]
       · have hf := firstThrow_set m.nthrows i 0 v hi hn
-        cases hv : m.void
-        · simp only [pick, hv, Bool.false_eq_true, if_false, List.singleton_append, List.drop_succ_cons, List.drop_zero,
-            hf, Nat.zero_add, outcomeOf, ho, hi, if_true]
-        · simp only [pick, hv, if_true, List.nil_append, hf, Nat.zero_add, outcomeOf, ho, hi, Bool.false_eq_true, if_false]
+        cases hv : m.void <;> cases v <;> simp_all [pick, outcomeOf]
     · cases h
   | err msg => simp [resultOf] at h
 
@@ -389,7 +378,7 @@ theorem pick_rel (P : Prog) (m : Method) (rd : StructDef) (hrd : P.structs[m.res
   · -- a value is returned: rd.fields = success :: throws
     simp only [hv, Bool.false_eq_true, if_false] at hl htd
     match hf : rd.fields, as, bs, hr with
-    | [], _, _, _ => simp [hf] at hl
+    | [], _, _, _ => simp [hf] at hl; omega
     | sf :: tf, [], _, hr => simp [PosRel] at hr
     | sf :: tf, _ :: _, [], hr => simp [PosRel] at hr
     | sf :: tf, a0 :: as', b0 :: bs', hr =>
@@ -403,14 +392,9 @@ theorem pick_rel (P : Prog) (m : Method) (rd : StructDef) (hrd : P.structs[m.res
         rcases hr.1 with ⟨ha, hb⟩ | ⟨ha, hb, w, h1, h2⟩
         · subst ha; subst hb
           exact OutcomeRel.ok _ _ (WireEq.refl _ _ _)
-        · have ea : (match some a0, some sf.ty with
-              | some GoVal.nil, some ty => Outcome.ok (zeroOf .default ty)
-              | some v, _ => Outcome.ok v
-              | none, _ => Outcome.ok .nil) = .ok a0 := by cases a0 <;> simp_all
-          have eb : (match some b0, some sf.ty with
-              | some GoVal.nil, some ty => Outcome.ok (zeroOf .default ty)
-              | some v, _ => Outcome.ok v
-              | none, _ => Outcome.ok .nil) = .ok b0 := by cases b0 <;> simp_all
+        · have ea : succOr (some sf.ty) a0 = a0 := by cases a0 <;> simp_all [succOr]
+          have eb : succOr (some sf.ty) b0 = b0 := by cases b0 <;> simp_all [succOr]
+          dsimp only
           rw [ea, eb, hsd]
           exact OutcomeRel.ok _ _ (Or.inr ⟨w, h1, h2⟩)
       · rw [e1, e2]
@@ -487,7 +471,8 @@ theorem call_main (P : Prog) (hP : SchemaOK P) (svc : Service) (m : Method) (h :
           decMsg_encMsg false m.name tEXCEPTION (nextSeq seq) _ hm.name (by decide) (nextSeq_lt seq)]
         simp only [ne_eq, not_true_eq_false, if_false, if_true]
         rw [← List.append_nil (encW _), readAppExc_enc _ INTERNAL_ERROR [] (asc_len_pos msg m.name) hA (by decide)]
-        simp [hne, INTERNAL_ERROR]
+        dsimp only
+        rw [if_neg hne]
       simp only [hrecv]
       refine ⟨_, rfl, rfl, ⟨_, rfl, rfl, rfl, fun e => by simp at e⟩, ?_⟩
       rw [outcomeOf_error _ m _ msg ho hres]
@@ -515,5 +500,167 @@ theorem call_main (P : Prog) (hP : SchemaOK P) (svc : Service) (m : Method) (h :
     refine ⟨_, rfl, rfl, ⟨_, rfl, rfl, rfl, fun _ => rfl⟩, ?_⟩
     simp only [outcomeOf, ho]
     cases h m a' <;> simp <;> exact OutcomeRel.ok _ _ (WireEq.refl _ _ _)
+
+
+/-! ### dispatch: the processor map of an `extends` chain -/
+
+theorem mapGet_mapSet_same (k : Bytes) (v : Method) : ∀ mp, mapGet k (mapSet k v mp) = some v
+  | [] => by simp [mapSet, mapGet]
+  | (k', v') :: r => by
+    by_cases h : k' = k
+    · simp [mapSet, mapGet, h]
+    · simp [mapSet, mapGet, h, mapGet_mapSet_same k v r]
+
+theorem mapGet_mapSet_other (k k2 : Bytes) (v : Method) (hne : k2 ≠ k) : ∀ mp, mapGet k2 (mapSet k v mp) = mapGet k2 mp
+  | [] => by simp [mapSet, mapGet, Ne.symm hne]
+  | (k', v') :: r => by
+    by_cases h : k' = k
+    · subst h; simp [mapSet, mapGet, Ne.symm hne]
+    · by_cases h2 : k' = k2
+      · subst h2; simp [mapSet, mapGet, hne]
+      · simp [mapSet, mapGet, h, h2, mapGet_mapSet_other k k2 v hne r]
+
+theorem mapGet_addAll_notin (k : Bytes) : ∀ (ms : List Method) (mp : List (Bytes × Method)),
+    k ∉ ms.map (·.name) → mapGet k (addAll ms mp) = mapGet k mp
+  | [], mp, _ => rfl
+  | m :: ms, mp, h => by
+    simp only [List.map_cons, List.mem_cons, not_or] at h
+    have := mapGet_addAll_notin k ms (mapSet m.name m mp) h.2
+    simp only [addAll, List.foldl_cons] at this ⊢
+    rw [this, mapGet_mapSet_other m.name k m h.1]
+
+theorem mapGet_addAll_mem (m : Method) : ∀ (ms : List Method) (mp : List (Bytes × Method)),
+    m ∈ ms → (ms.map (·.name)).Nodup → mapGet m.name (addAll ms mp) = some m
+  | [], _, h, _ => by cases h
+  | x :: ms, mp, h, hnd => by
+    simp only [List.map_cons, List.nodup_cons] at hnd
+    rcases List.mem_cons.mp h with rfl | hm
+    · have := mapGet_addAll_notin m.name ms (mapSet m.name m mp) hnd.1
+      simp only [addAll, List.foldl_cons] at this ⊢
+      rw [this, mapGet_mapSet_same]
+    · have := mapGet_addAll_mem m ms (mapSet x.name x mp) hm hnd.2
+      simpa [addAll] using this
+
+/-- no method name occurs twice along the `extends` chain -/
+def Service.NoShadow (svc : Service) : Prop := (svc.methods.map (·.name)).Nodup
+
+theorem dispatch_mem : ∀ (svc : Service), svc.NoShadow → ∀ m ∈ svc.methods, mapGet m.name svc.procMap = some m
+  | .root ms, hn, m, hm => mapGet_addAll_mem m ms [] hm hn
+  | .ext ms b, hn, m, hm => by
+    simp only [Service.NoShadow, Service.methods, List.map_append, List.nodup_append] at hn
+    simp only [Service.methods, List.mem_append] at hm
+    simp only [Service.procMap]
+    rcases hm with hm | hm
+    · exact mapGet_addAll_mem m ms _ hm hn.1
+    · have hni : m.name ∉ ms.map (·.name) := by
+        intro hin
+        exact hn.2.2 m.name hin m.name (List.mem_map.mpr ⟨m, hm, rfl⟩) rfl
+      rw [mapGet_addAll_notin m.name ms _ hni]
+      exact dispatch_mem b hn.2.1 m hm
+
+theorem dispatch_unknown : ∀ (svc : Service) (name : Bytes), name ∉ svc.methods.map (·.name) → mapGet name svc.procMap = none
+  | .root ms, name, h => by
+    simp only [Service.methods] at h
+    simp only [Service.procMap]
+    rw [mapGet_addAll_notin name ms [] h]; rfl
+  | .ext ms b, name, h => by
+    simp only [Service.methods, List.map_append, List.mem_append, not_or] at h
+    simp only [Service.procMap]
+    rw [mapGet_addAll_notin name ms _ h.1]
+    exact dispatch_unknown b name h.2
+
+/-! ### shape of the `<fn>_result` fields on the wire -/
+
+theorem toWFields_nils (P : Prog) : ∀ (defs : List FieldDef), AllOpt defs → toWFields P defs (nils defs.length) = .ok []
+  | [], _ => rfl
+  | f :: fs, h => by
+    have hf := h f (by simp)
+    simp only [List.length_cons, nils, List.replicate_succ, toWFields, hf.1, decide_true, Bool.true_and,
+      isSet_nodflt f _ hf.2, goEq, Bool.not_true, Bool.not_false, if_true]
+    exact toWFields_nils P fs (fun g hg => h g (by simp [hg]))
+
+theorem isSet_of_ne_nil (f : FieldDef) (v : GoVal) (h : f.dflt = none) (hv : v ≠ .nil) : isSet f v = true := by
+  rw [isSet_nodflt f v h]
+  cases hg : goEq v .nil
+  · rfl
+  · exact absurd ((goEq_nil_right v).mp hg) hv
+
+/-- exactly the i-th field set: exactly that field is written, under its own id -/
+theorem toWFields_single (P : Prog) : ∀ (defs : List FieldDef) (i : Nat) (v : GoVal) (wr : List (Nat × WVal)),
+    AllOpt defs → i < defs.length → v ≠ .nil → toWFields P defs ((nils defs.length).set i v) = .ok wr →
+    ∃ f w, (defs.drop i).head? = some f ∧ toW P f.ty v = .ok w ∧ wr = [(idOf f, w)]
+  | [], i, _, _, _, hi, _, _ => by simp at hi
+  | f :: fs, 0, v, wr, h, _, hv, hw => by
+    have hf := h f (by simp)
+    simp only [List.length_cons, nils, List.replicate_succ, List.set_cons_zero, toWFields, hf.1, decide_true,
+      Bool.true_and, isSet_of_ne_nil f v hf.2 hv, Bool.not_true, Bool.false_eq_true, if_false, Res.bind_eq_ok] at hw
+    obtain ⟨w, h1, ws', h2, h3⟩ := hw
+    have := toWFields_nils P fs (fun g hg => h g (by simp [hg]))
+    simp only [nils] at this
+    rw [this] at h2
+    cases h2; cases h3
+    exact ⟨f, w, rfl, h1, rfl⟩
+  | f :: fs, i + 1, v, wr, h, hi, hv, hw => by
+    have hf := h f (by simp)
+    simp only [List.length_cons, nils, List.replicate_succ, List.set_cons_succ, toWFields, hf.1, decide_true,
+      Bool.true_and, isSet_nodflt f _ hf.2, goEq, Bool.not_true, Bool.not_false, if_true] at hw
+    have := toWFields_single P fs i v wr (fun g hg => h g (by simp [hg])) (by simpa using hi) hv (by simpa [nils] using hw)
+    simpa using this
+
+theorem toWFields_nonopt_ids (P : Prog) : ∀ (defs : List FieldDef) (vs : List GoVal) (ws : List (Nat × WVal)),
+    (∀ f ∈ defs, f.req ≠ .optional) → toWFields P defs vs = .ok ws → ws.map (·.1) = defs.map idOf
+  | [], [], ws, _, h => by simp [toWFields] at h; cases h; rfl
+  | [], _ :: _, _, _, h => by simp [toWFields] at h
+  | _ :: _, [], _, _, h => by simp [toWFields] at h
+  | f :: fs, v :: vs, ws, hno, h => by
+    have hf := hno f (by simp)
+    have : (f.req = .optional && !isSet f v) = false := by simp [hf]
+    simp only [toWFields, this, Bool.false_eq_true, if_false, Res.bind_eq_ok] at h
+    obtain ⟨w, _, ws', h2, h3⟩ := h
+    cases h3
+    simp [idOf, toWFields_nonopt_ids P fs vs ws' (fun g hg => hno g (by simp [hg])) h2]
+
+/-- what `<svc>Processor<Fn>.Process` writes back, by handler answer -/
+theorem processFn_reply (P : Prog) (m : Method) (h : Handler) (seq : Nat) (bs rest : Bytes) (a' : List GoVal)
+    (hread : readZero P.structs m.args bs = some (a', rest)) :
+    (m.oneway = true → (processFn P m h seq bs).reply = []) ∧
+    (m.oneway = false → ∀ msg, resultOf m (h m a') = .error msg →
+      (processFn P m h seq bs).reply =
+        excReply m.name seq (asc "Internal error processing " ++ m.name ++ asc ": " ++ msg) INTERNAL_ERROR) ∧
+    (m.oneway = false → ∀ robj rd wr, resultOf m (h m a') = .ok robj → P.structs[m.result]? = some rd → rd.kind = 0 →
+      toWFields P rd.fields robj = .ok wr →
+      (processFn P m h seq bs).reply = encMsg m.name tREPLY seq ++ encW (.struct wr)) := by
+  refine ⟨fun ho => ?_, fun ho msg hr => ?_, fun ho robj rd wr hr hrd hk hw => ?_⟩
+  · simp [processFn, hread, ho]
+  · simp [processFn, hread, ho, hr]
+  · simp [processFn, hread, ho, hr, write_struct P m.result rd robj wr hrd hk hw, encW]
+
+/-! ### sequences of calls on one connection -/
+
+def seqAfter : Nat → Nat → Nat
+  | 0, s => s
+  | n + 1, s => seqAfter n (nextSeq s)
+
+/-- the hypotheses of `call_main` for one call of a history -/
+structure CallOK (P : Prog) (svc : Service) (s : CallSpec) : Prop where
+  method : MethodOK P s.m
+  dispatch : mapGet s.m.name svc.procMap = some s.m
+  wt : ∃ ad, P.structs[s.m.args]? = some ad ∧ WTFields P.structs ad.fields s.a ∧ ∃ ws, toWFields P ad.fields s.a = .ok ws
+  answers : ∀ a', s.m.oneway = false → AnswerOK P s.m (s.h s.m a')
+
+def obsAlone (P : Prog) (svc : Service) (seq : Nat) : List CallSpec → List CallObs
+  | [] => []
+  | s :: r => (call P svc s.m s.h s.a (Conn.fresh seq)).2 :: obsAlone P svc (nextSeq seq) r
+
+theorem runCalls_fresh (P : Prog) (hP : SchemaOK P) (svc : Service) : ∀ (specs : List CallSpec) (seq : Nat),
+    (∀ s ∈ specs, CallOK P svc s) →
+    runCalls P svc specs (Conn.fresh seq) = (Conn.fresh (seqAfter specs.length seq), obsAlone P svc seq specs)
+  | [], _, _ => rfl
+  | s :: r, seq, h => by
+    have hs := h s (by simp)
+    obtain ⟨ad, hsd, hwt, ws, hw⟩ := hs.wt
+    obtain ⟨_, _, obs, hc, _⟩ := call_main P hP svc s.m s.h s.a seq hs.method hs.dispatch ad hsd hwt ws hw hs.answers
+    have ih := runCalls_fresh P hP svc r (nextSeq seq) (fun x hx => h x (by simp [hx]))
+    simp only [runCalls, hc, ih, obsAlone, List.length_cons, seqAfter]
 
 end Gen.Rpc
